@@ -77,6 +77,15 @@ CHECKS = {
              "sealThenAllocFail are reported as KNOWN-FINDING.",
              note=BASE_NOTE + "In-process theorem on the entry-level model AEng (tied by correspondence). The restart clause has no theorem yet.",
              tech="Lean 4 proof (corollary of the FIFO refinement, induction over histories) + differential correspondence + oracle", ref="§6 C15"),
+ "C17": dict(text="Full-strength theorem C17_markers over the storage-level model Eng: along ANY history of engine operations (appends and batches incl. rejected "
+             "ones, mark_topic_clean/dirty, both read APIs, reclamation, clock changes, clean close+open and process restarts at any point, the background "
+             "persister running at any point or never) every topic_is_clean answer equals what the latest returned append/mark call on that topic prescribes. "
+             "Proved by an invariant relating the live tracker / the marker file to the expected state, with frame lemmas for the whole write and read path. "
+             "Executable model compared with the real engine on ~360 marker-heavy histories per quick run (persister held by hook, released only by `persist`), "
+             "independent oracle on the implementation's answers.",
+             note=BASE_NOTE + "Sequential callers; a killed process is outside the statement (clean shutdown). rkyv encoding of the marker file and fs::rename are modelled as a map update. "
+             "Full strength after fixes c8a8099 + 0bd3aa7 (markers flushed on drop).",
+             tech="Lean 4 proof (inductive invariant over operation histories + frame lemmas) + differential correspondence + oracle", ref="§6 C17"),
 }
 NOT_APPLICABLE = {
  "C19": "statement about the vendored openraft core + QUIC transport + tokio runtime, none of which can be built or run offline here (tokio, quinn, rustls, futures absent from the registry); a free-standing Raft proof would be tied to nothing (DESIGN.md §6 C19)",
